@@ -816,7 +816,14 @@ pub fn run_c13(tier: Tier) -> i32 {
             c13_foreign_moves(&rep, p, &foreign_calls);
         }
     });
+    // the position command of the engine is a caller of make_all_uci: a rejected move list after an
+    // accepted position must leave the engine on the accepted one (all-or-nothing, observed through
+    // the bestmove of a following go)
+    let t_rej = Instant::now();
+    let n_rej = crate::engine_sched::position_command_sessions(&rep, tier, "C13", &AtomicU64::new(0));
+    let rej_secs = t_rej.elapsed().as_secs_f64();
     let mut cov = Coverage::new();
+    cov.set("engine_position_commands_rejected_after_an_accepted_one", json!({"sessions": n_rej, "secs": rej_secs}));
     cov.states = positions.len() as u64;
     cov.transitions = calls.load(Ordering::Relaxed) + 2 * lists_run.load(Ordering::Relaxed);
     cov.traces_validated = cov.transitions;
